@@ -153,6 +153,20 @@ CHECKS = {
         "Trusted: the Pandas executor for sequential application. a >> b is only exercised when b reads a single table.",
         "4/C07",
     ),
+    "C12": (
+        "round-trip runtime monitor: print (4 ways) -> eval_da_ops -> == / reprint / same result; pickle round trip",
+        "Random pipelines extended by printer-hostile steps (arbitrarily shaped expression trees: nested unary minus, "
+        "powers of negated terms and negative constants, right-nested - and /, %?% %/% %+%, comparisons and "
+        "if_else/where inside arithmetic, is_in lists and sets, mapv with default; string constants with quotes, "
+        "backslashes, newlines, unicode; window options; concat_rows label/id variants; non-identifier column names), "
+        "built from expression text or from Term objects, are printed with to_python(), to_python(pretty=True), repr() "
+        "and str(); each text is rebuilt with the repository's eval_da_ops and must compare equal to the original in "
+        "both directions, print to the same text again and give the original's Pandas result on two inputs; "
+        "pickle.loads(pickle.dumps(p)) is judged the same way.",
+        "Trusted: eval_da_ops as the rebuild route; Pandas executor for the result comparison. convert_records steps "
+        "are not generated yet.",
+        "4/C12",
+    ),
 }
 
 NOT_BUILT = "check not built yet (build in progress, see DESIGN.md section 8)"
